@@ -10,11 +10,12 @@ UNITS = [
     // filter mode: the state carries `@`; the result is the truth value of the logical expression
     open spec fn process_pre<'a, T: Queryable>(&self, state: State<'a, T>) -> bool { wf_filter(*self) && is_cur(state) }
     open spec fn process_rel<'a, T: Queryable>(&self, state: State<'a, T>, r: State<'a, T>) -> bool {
-        truth_state(state, r, filter_truth(*self, cur_of(state), state.root))
+        bool_state(state, r, filter_truth(*self, cur_of(state), state.root))
     }
 """,
          ensures=[("rel", "self.process_rel(state, r)")],
          shapes=[("E6", 1)],
+         body_prefix="proof { T::from_bool_roundtrip(true); T::from_bool_roundtrip(false); }",
          closures={1: Cl(expect="p.is_internal()", types=["Pointer<'a, T>"], ret="(o: Data<'a, T>)",
                          requires=[("wf", "wf_filter(*self)")],
                          ensures=[("cur", "p.path@.len() == 0 ==> o == Data::<'a, T>::Value(T::from_bool_spec(filter_truth(*self, p.inner, root)))")])}),
@@ -54,7 +55,7 @@ UNITS = [
          requires=[("wf", "wf_filter(*self)"), ("cur", "is_cur(state)")],
          ensures=[("truth", "truth_state(state, r, filter_truth(*self, cur_of(state), state.root))")],
          shapes=[("R5any", 1), ("R5all", 1)],
-         body_prefix="let st0: Ghost<State<'a, T>> = Ghost(state);",
+         body_prefix="let st0: Ghost<State<'a, T>> = Ghost(state); proof { T::from_bool_roundtrip(true); T::from_bool_roundtrip(false); }",
          closures={
              1: Cl(expect=".process(state.clone())", ret="(b: bool)",
                    requires=[("wf", "wf_filter(*filter)"), ("cur", "is_cur(st0@)")],
